@@ -102,7 +102,7 @@ def main():
         for i in range(1, 10):
             pf = os.path.join(wt, "benign%d.patch" % i)
             if os.path.exists(pf):
-                d = os.path.join(VERIF, "benign", "%s-%d" % (prefix, i))
+                d = os.path.join(VERIF, CORPUS, "%s-%d" % (prefix, i))
                 os.makedirs(d, exist_ok=True)
                 shutil.copy(pf, os.path.join(d, "patch.diff"))
                 md = os.path.join(wt, "benign%d.md" % i)
